@@ -190,6 +190,11 @@ func (c *gcase) baseConst(e int) string {
 	if c.Base.SC {
 		return "undef"
 	}
+	if strings.HasPrefix(p.LL(), "{") {
+		// LLVM reads "<{" at the start of a constant as a packed struct, so a vector
+		// constant whose element type starts with "{" cannot be spelled element by element
+		return "zeroinitializer"
+	}
 	var es []string
 	for i := 0; i < c.Base.N; i++ {
 		es = append(es, p.LL()+" "+g)
@@ -308,6 +313,8 @@ func (e *env) objects(c *gcase) *objects {
 		o.baseC = o.g[p.AS]
 	case c.Base.SC:
 		o.baseC = constant.NewUndef(o.base)
+	case strings.HasPrefix(p.LL(), "{"):
+		o.baseC = constant.NewZeroInitializer(o.base)
 	default:
 		var es []constant.Constant
 		for k := 0; k < c.Base.N; k++ {
@@ -529,12 +536,26 @@ func (e *env) through(c *gcase) []string {
 	return out
 }
 
+// shape describes the minimal failing case abstractly. Indices that are plain
+// integer literals carry no information once a non-plain operand is present,
+// so the shape is the base plus the set of non-plain index forms; only when
+// every index is a plain integer the list and the kinds stepped into are given.
 func (e *env) shape(c *gcase) string {
-	var is []string
+	var all, special []string
+	seen := map[string]bool{}
 	for _, ix := range c.Idxs {
-		is = append(is, idxShape(ix))
+		s := idxShape(ix)
+		all = append(all, s)
+		if (ix.F != "int" || ix.IR) && !seen[s] {
+			seen[s] = true
+			special = append(special, s)
+		}
 	}
-	s := "base=" + baseShape(c.Base) + " idx=[" + strings.Join(is, ", ") + "]"
+	if len(special) > 0 {
+		sort.Strings(special)
+		return "base=" + baseShape(c.Base) + " idx∋{" + strings.Join(special, ", ") + "}"
+	}
+	s := "base=" + baseShape(c.Base) + " idx=[" + strings.Join(all, ", ") + "]"
 	if th := e.through(c); len(th) > 0 {
 		s += " through=[" + strings.Join(th, ",") + "]"
 	}
@@ -567,14 +588,28 @@ func neighbours(c *gcase) []*gcase {
 	}
 	plain := []idx{{F: "int", W: 64, Val: 0}, {F: "int", W: 32, Val: 0}, {F: "int", W: 32, Val: 1}}
 	for k := len(c.Idxs) - 1; k >= 0; k-- {
-		for _, p := range plain {
-			if c.Idxs[k] == p {
-				break // already at least as plain
-			}
+		repl := func(p idx) {
 			n := *c
 			n.Idxs = append([]idx{}, c.Idxs...)
 			n.Idxs[k] = p
 			out = append(out, &n)
+		}
+		ix := c.Idxs[k]
+		for _, p := range plain {
+			if ix == p {
+				break // already at least as plain
+			}
+			repl(p)
+		}
+		if ix.Vec > 0 {
+			if ix.SC { // the fixed vector of the same form
+				f := ix
+				f.SC = false
+				repl(f)
+			}
+			if ix.F != "zeroinit" { // the plainest operand of that type
+				repl(idx{F: "zeroinit", W: ix.W, Val: 0, Vec: ix.Vec, SC: ix.SC})
+			}
 		}
 	}
 	return out
